@@ -637,8 +637,9 @@ def run(ctx):
             except Exception as e:  # a recogniser bug must never discharge
                 res = None
                 ctx.note("discharge error at %s: %r" % (key, e))
-            if res is None and (fpath, descr) in REVIEWED:
-                res = ("G5-reviewed", REVIEWED[(fpath, descr)])
+            rpath = clean_path(fx.root_of(f)["path"])      # a closure belongs to the function it is written in
+            if res is None and ((fpath, descr) in REVIEWED or (rpath, descr) in REVIEWED):
+                res = ("G5-reviewed", REVIEWED.get((fpath, descr)) or REVIEWED[(rpath, descr)])
             if res is None and f.get("exp") and (f["exp"].startswith("d:EnumIter")):
                 res = ("G6", "strum EnumIter: index arithmetic over the number of variants (compile-time bounded)") \
                     if kind == "assert" and t["msg"] == "overflow" else None
